@@ -184,18 +184,20 @@ Section Rule.
     destruct Hin as [X|X]; [inversion X; subst; auto|exact (IH H k0 v0 X)].
   Qed.
 
+  Lemma nyn_value' x c : y_value (nyn x c) = node_value x.
+  Proof. unfold new_yaml_node. destruct (plines lines x c). reflexivity. Qed.
+
   (** the items of a YamlMap built from a plain mapping: key/value texts of the pairs, in order *)
   Lemma yaml_map_items_plain kc : forall lps : list (node * node),
-    (forall a b, In (a, b) lps -> n_alias a = None /\ n_alias b = None) ->
+    (forall a b, In (a, b) lps -> n_alias a = None) ->
     map (fun ab : ynode * ynode => (y_value (fst ab), y_value (snd ab))) (yaml_map_items plines lines 0 kc (flatten lps)) =
-    map (fun kv : node * node => (n_value (fst kv), n_value (snd kv))) lps.
+    map (fun kv : node * node => (n_value (fst kv), node_value (snd kv))) lps.
   Proof.
     induction lps as [|[a b] r IH]; intros H; [reflexivity|].
     rewrite flatten_cons. cbn [yaml_map_items map fst snd].
-    destruct (H a b (or_introl eq_refl)) as [Ha Hb].
+    pose proof (H a b (or_introl eq_refl)) as Ha.
     rewrite (IH (fun a0 b0 H0 => H a0 b0 (or_intror H0))). f_equal.
-    unfold new_yaml_node. destruct (plines lines a (kc + 2)), (plines lines b (n_col a + 2)). cbn [y_value].
-    unfold node_value. now rewrite Ha, Hb.
+    rewrite !nyn_value'. unfold node_value at 1. now rewrite Ha.
   Qed.
 
   Definition plain_below (n : node) : Prop := forall m, reach n m -> plain_node m.
@@ -219,37 +221,94 @@ Section Rule.
     apply plain_not_merge. apply (H c). eapply reach_content; [exact Hc|apply reach_refl].
   Qed.
 
+  (** ---- the rule-level guard: aliases are allowed as the VALUE of a rule key and as a value inside its labels /
+      annotations mapping (yaml.v3 alias nodes, [alias_to]); keys, the rule mapping itself and everything the aliases point
+      at are plain. ---- *)
+  Definition leaf (vv : node) : Prop := exists tv, sees vv tv /\ plain_below tv.
+
+  Definition lmap (t : node) : Prop :=
+    plain_node t /\ n_kind t = KMapping /\
+    forall kk vv, In (kk, vv) (mapping_nodes t) -> plain_below kk /\ leaf vv.
+
+  Definition tgt_ok (t : node) : Prop := plain_below t \/ lmap t.
+
+  Definition field_value (x : node) : Prop := exists t, sees x t /\ tgt_ok t.
+
+  Definition rule_guard (rn : node) : Prop :=
+    plain_node rn /\ forall k x, In (k, x) (mapping_nodes rn) -> plain_below k /\ field_value x.
+
+  Lemma plain_leaf x : plain_below x -> leaf x.
+  Proof. intros H. exists x. split; [apply sees_self; exact (proj1 (plain_self x H))|exact H]. Qed.
+
+  Lemma plain_lmap x : plain_below x -> n_kind x = KMapping -> lmap x.
+  Proof.
+    intros H K. split; [exact (plain_self x H)|]. split; [exact K|]. intros kk vv Hin.
+    destruct (plain_pairs x kk vv H Hin) as [A B]. split; [exact A|exact (plain_leaf vv B)].
+  Qed.
+
+  Lemma tgt_plain t : tgt_ok t -> plain_node t.
+  Proof. intros [H|[H _]]; [exact (plain_self t H)|exact H]. Qed.
+
+  Lemma tgt_lmap t : tgt_ok t -> n_kind t = KMapping -> lmap t.
+  Proof. intros [H|H] K; [exact (plain_lmap t H K)|exact H]. Qed.
+
+  Lemma plain_rule_guard rn : plain_below rn -> rule_guard rn.
+  Proof.
+    intros H. split; [exact (plain_self rn H)|]. intros k x Hin. destruct (plain_pairs rn k x H Hin) as [A B].
+    split; [exact A|]. exists x. split; [apply sees_self; exact (proj1 (plain_self x B))|left; exact B].
+  Qed.
+
+  (** what pint's node [x] (a raw value or the resolved copy of an alias) and Prometheus' [deref x] have in common *)
+  Definition views (x t : node) : Prop :=
+    deref x = t /\ n_alias t = None /\ n_tag x = n_tag t /\ n_content x = n_content t /\ node_value x = n_value t /\
+    (n_alias x = None -> x = t) /\ (n_alias x <> None -> n_value x <> "").
+
+  Lemma views_unp x t : sees x t -> views (unp x) t.
+  Proof.
+    intros Hs. destruct (unp_view x t Hs) as (A & B & C & D & E). destruct (sees_deref x t Hs) as [_ Ht].
+    repeat split; auto.
+    - intros Hn. rewrite E in Hn. unfold unp. rewrite Hn. destruct Hs as [[-> _]|(_ & X & _)]; [reflexivity|congruence].
+    - intros Hn. rewrite E in Hn. destruct Hs as [[-> X]|(_ & X & _ & _ & _ & _ & V)]; [congruence|].
+      unfold unp. rewrite X. exact V.
+  Qed.
+
+  Lemma leaf_scalar_of vv : leaf vv -> is_tag (n_tag vv) strTag = true -> leaf_scalar vv.
+  Proof.
+    intros (tv & Hs & Hp) Ht. exists tv. split; [exact Hs|]. pose proof (plain_self tv Hp) as Hn. split; [exact Hn|].
+    apply plain_str_scalar; [exact Hn|]. rewrite <- (sees_tag vv tv Hs). destruct (is_tag_true _ _ Ht); auto.
+  Qed.
+
   (** Prometheus' view of a label/annotation map that pint validated *)
   Definition pairs_text (lps : list (node * node)) : list (string * string) :=
     map (fun kv => (key_text kv, str_val (snd kv))) lps.
 
   Lemma strmap_of_validated fld x off ln :
-    plain_below x -> is_tag (n_tag x) mapTag = true ->
+    tgt_ok x -> is_tag (n_tag x) mapTag = true ->
     validate_string_map fld (mapping_nodes x) off ln = None ->
     (forall k v, In (k, v) (mapping_nodes x) -> n_value k <> "") ->
     (n_tag x = nullTag /\ dec_strmap str_ok null_ok x = DNull) \/
     (n_kind x = KMapping /\ dec_strmap str_ok null_ok x = DOk (pairs_text (mapping_nodes x))).
   Proof.
-    intros Hp Ht Hv Hne. pose proof (plain_self x Hp) as Hx.
+    intros Hp Ht Hv Hne. pose proof (tgt_plain x Hp) as Hx.
     destruct (is_tag_true _ _ Ht) as [T|T].
     - left. split; [exact T|]. apply dec_strmap_null; auto. apply plain_str_scalar; auto.
     - right. pose proof (plain_map_tag x Hx T) as K. split; [exact K|].
+      destruct (tgt_lmap x Hp K) as (_ & _ & Hl).
       destruct (validate_string_map_none _ _ _ _ Hv) as [Hvals Hnd].
       apply dec_strmap_plain; auto.
-      + split; [|exact Hnd]. intros k v Hin. destruct (plain_pairs x k v Hp Hin) as [Hpk _].
+      + split; [|exact Hnd]. intros k v Hin. destruct (Hl k v Hin) as [Hpk _].
         pose proof (plain_self k Hpk) as Hk. split; [exact Hk|]. split.
         * apply plain_nonempty_scalar; auto. exact (Hne k v Hin).
         * exact (plain_mapping_keys x k v Hx K Hin).
-      + intros k v Hin. destruct (plain_pairs x k v Hp Hin) as [_ Hpv].
-        pose proof (plain_self v Hpv) as Hvn. split; [exact Hvn|].
-        apply plain_str_scalar; auto. destruct (is_tag_true _ _ (Hvals k v Hin)); auto.
+      + intros k v Hin. destruct (Hl k v Hin) as [_ Hlv].
+        exact (leaf_scalar_of v Hlv (Hvals k v Hin)).
   Qed.
 
   (** slots in terms of the pairs *)
   Lemma slot_scalar ps s f :
     match f with FLabels | FAnn | FUnknown => False | _ => True end ->
     slots_spec plines lines 0 f ps slots0 s ->
-    get_sc f s = match find_field f ps with Some (k, x) => Some (x, nyn x (n_col k + 2)) | None => None end.
+    get_sc f s = match find_field f ps with Some (k, x) => Some (x, nyn x 1) | None => None end.
   Proof.
     intros Hf H. unfold slots_spec in H. destruct (find_field f ps) as [[k x]|].
     - destruct H as (_ & H & _). destruct f; try contradiction; cbn [slot mk] in H;
@@ -337,42 +396,67 @@ Section Rule.
   Notation PRS := (parse_rule_strict plines metric_ok lname_ok lvalue_ok).
   Notation PR := (parse_rule plines metric_ok lname_ok lvalue_ok).
 
+  (** the key/value pairs as parseRule sees them: unpackNodes replaces an alias value by its resolved copy *)
+  Definition ups (rn : node) : list (node * node) := map (fun kv => (fst kv, unp (snd kv))) (mapping_nodes rn).
+
+  Lemma flatten_ups (rps : list (node * node)) :
+    flat_map (fun kv : node * node => [fst kv; unp (snd kv)]) rps = flatten (map (fun kv => (fst kv, unp (snd kv))) rps).
+  Proof. induction rps as [|[k x] r IH]; [reflexivity|]. cbn [flat_map map fst snd app]. rewrite flatten_cons. now rewrite IH. Qed.
+
+  Lemma ups_keys rn : map key_text (ups rn) = map key_text (mapping_nodes rn).
+  Proof. unfold ups. rewrite map_map. reflexivity. Qed.
+
+  Lemma tgt_not_merge t : tgt_ok t -> n_alias t = None /\ n_tag t <> mergeTag.
+  Proof. intros H. exact (plain_not_merge t (tgt_plain t H)). Qed.
+
+  Lemma unpack_guard rn : rule_guard rn -> n_kind rn <> KSequence -> unpack_nodes rn = flatten (ups rn).
+  Proof.
+    intros [Hrn Hg] Ks. unfold unpack_nodes, ups.
+    destruct (n_kind rn) eqn:K; try (destruct Hrn as [_ X]; rewrite K in X; contradiction).
+    - rewrite (plain_mapping_content rn Hrn K). unfold flatten at 1. rewrite unpack_loop_values; [apply flatten_ups|].
+      intros k x Hin. destruct (Hg k x Hin) as [Hk (t & Hs & Ht)]. split; [exact (plain_not_merge k (plain_self k Hk))|].
+      destruct Hs as [[-> _]|Hal]; [left; exact (tgt_not_merge t Ht)|right; exists t; exact Hal].
+    - destruct Hrn as [_ X]. rewrite K in X. destruct X as (C & _). unfold mapping_nodes. rewrite C. reflexivity.
+  Qed.
+
   (** Step 1: what acceptance by parseRuleStrict means, in terms of the pairs of the mapping. *)
   Lemma rule_accept_facts rn :
-    plain_below rn -> r_error (PRS lines rn) = None ->
-    let ps := mapping_nodes rn in
+    rule_guard rn -> r_error (PRS lines rn) = None ->
+    let ps := ups rn in
     exists s,
-      n_kind rn = KMapping /\ n_content rn = flatten ps /\
+      n_kind rn = KMapping /\ n_content rn = flatten (mapping_nodes rn) /\
       (forall kv, In kv ps -> field_of (key_text kv) <> FUnknown) /\
       NoDup (map key_text ps) /\
       (forall f, f <> FUnknown -> slots_spec plines lines 0 f ps slots0 s) /\
       (forall c, In c (rule_checks metric_ok lname_ok lvalue_ok 0 rn s) -> c = None) /\
       rule_final s = (PRS lines rn, false).
   Proof.
-    intros Hp Herr ps. pose proof (plain_self rn Hp) as Hrn.
+    intros Hp Herr ps. pose proof (proj1 Hp) as Hrn.
     unfold parse_rule_strict in *.
     destruct (negb (is_tag (n_tag rn) mapTag)) eqn:Et; [discriminate|].
-    rewrite (unpack_plain rn Hp) in *.
-    destruct (bad_rule_key (n_content rn)) eqn:Bk; [discriminate|].
+    assert (Ks : n_kind rn <> KSequence).
+    { intros K. destruct Hrn as [_ H]. rewrite K in H. apply negb_false_iff in Et. destruct H as (T & _). rewrite T in Et. discriminate. }
+    rewrite (unpack_guard rn Hp Ks) in *. fold ps in Herr |- *.
+    destruct (bad_rule_key (flatten ps)) eqn:Bk; [discriminate|].
     destruct (PR lines 0 rn) as [r e] eqn:PRE. destruct e; [discriminate|].
-    unfold parse_rule in PRE. rewrite (unpack_plain rn Hp) in PRE.
-    assert (Hc : n_content rn = flatten ps /\ (n_kind rn = KMapping \/ n_content rn = [])).
-    { destruct Hrn as [_ H]. destruct (n_kind rn) eqn:K; try contradiction.
-      - apply negb_false_iff in Et. destruct H as (T & _). rewrite T in Et. discriminate.
-      - split; [|left; reflexivity]. apply plain_mapping_content; [exact (plain_self rn Hp)|exact K].
-      - destruct H as (C & _). unfold ps, mapping_nodes. rewrite C. split; [reflexivity|right; reflexivity]. }
-    destruct Hc as [Hc Hk]. rewrite Hc in PRE, Bk.
+    unfold parse_rule in PRE. rewrite (unpack_guard rn Hp Ks) in PRE. fold ps in PRE.
+    assert (Hc : n_content rn = flatten (mapping_nodes rn) /\ (n_kind rn = KMapping \/ n_content rn = [])).
+    { pose proof Hrn as [Ha H]. destruct (n_kind rn) eqn:K; try contradiction.
+      - split; [|left; reflexivity]. apply plain_mapping_content; [exact Hrn|exact K].
+      - destruct H as (C & _). unfold mapping_nodes. rewrite C. split; [reflexivity|right; reflexivity]. }
+    destruct Hc as [Hc Hk].
     destruct (rule_loop plines lines 0 (flatten ps) None slots0) as [r0|s] eqn:RL.
     { inversion PRE; subst. exfalso. exact (rule_loop_inl_err _ _ _ _ RL Herr). }
     destruct (first_some (rule_checks metric_ok lname_ok lvalue_ok 0 rn s)) as [[pe [f l]]|] eqn:FS.
     { inversion PRE; subst. discriminate Herr. }
     assert (Hna : forall kv, In kv ps -> n_alias (fst kv) = None).
-    { intros [k x] Hin. destruct (plain_pairs rn k x Hp Hin) as [Hpk _]. exact (proj1 (plain_self k Hpk)). }
+    { intros kv Hin. unfold ps, ups in Hin. apply in_map_iff in Hin. destruct Hin as ([k x] & <- & Hin). cbn [fst].
+      destruct (proj2 Hp k x Hin) as [Hpk _]. exact (proj1 (plain_self k Hpk)). }
     pose proof (rule_loop_slots plines lines 0 ps slots0 s Hna RL) as Hsl.
     pose proof (bad_rule_key_flatten ps Hna Bk) as Hknown.
     exists s. repeat split.
     - destruct Hk as [K|C]; [exact K|]. exfalso.
-      assert (ps = []) by (unfold ps, mapping_nodes; rewrite C; reflexivity).
+      assert (ps = []) by (unfold ps, ups, mapping_nodes; rewrite C; reflexivity).
       rewrite H in RL. cbn in RL. inversion RL; subst s. cbn in PRE. discriminate PRE.
     - exact Hc.
     - exact Hknown.
@@ -386,23 +470,30 @@ Section Rule.
   Lemma field_name_in f : f <> FUnknown -> In (field_name f) rule_fields.
   Proof. destruct f; cbn; intros H; try tauto. Qed.
 
-  Lemma dec_str_value x :
-    plain_below x -> is_tag (n_tag x) strTag = true -> n_tag x <> nullTag ->
-    dec_string str_ok null_ok x = DOk (n_value x).
+  Lemma views_scalar x t :
+    views x t -> tgt_ok t -> is_tag (n_tag x) strTag = true -> plain_node t /\ n_kind t = KScalar.
   Proof.
-    intros Hp Ht Hn. pose proof (plain_self x Hp) as Hx.
-    assert (K : n_kind x = KScalar) by (apply plain_str_scalar; auto; destruct (is_tag_true _ _ Ht); auto).
-    rewrite (dec_string_scalar str_ok null_ok H_str H_null x Hx K). apply String.eqb_neq in Hn. now rewrite Hn.
+    intros (_ & _ & T & _) Hp Ht. pose proof (tgt_plain t Hp) as Hx. split; [exact Hx|].
+    apply plain_str_scalar; auto. rewrite <- T. destruct (is_tag_true _ _ Ht); auto.
   Qed.
 
-  Lemma dec_dur_value x :
-    plain_below x -> is_tag (n_tag x) strTag = true ->
-    dec_duration str_ok null_ok dur_ok x =
-    if String.eqb (n_tag x) nullTag then DNull else if dur_ok (n_value x) then DOk (n_value x) else DErr.
+  Lemma dec_str_value x t :
+    views x t -> tgt_ok t -> is_tag (n_tag x) strTag = true -> n_tag x <> nullTag ->
+    dec_string str_ok null_ok x = DOk (node_value x).
   Proof.
-    intros Hp Ht. pose proof (plain_self x Hp) as Hx.
-    assert (K : n_kind x = KScalar) by (apply plain_str_scalar; auto; destruct (is_tag_true _ _ Ht); auto).
-    exact (dec_duration_scalar str_ok null_ok H_str H_null dur_ok x Hx K).
+    intros Hv Hp Ht Hn. destruct (views_scalar x t Hv Hp Ht) as [Hx K]. destruct Hv as (D & A & T & _ & V & _).
+    rewrite (dec_string_deref str_ok null_ok x) by (now rewrite D). rewrite D.
+    rewrite (dec_string_scalar str_ok null_ok H_str H_null t Hx K), <- T. apply String.eqb_neq in Hn. now rewrite Hn, V.
+  Qed.
+
+  Lemma dec_dur_value x t :
+    views x t -> tgt_ok t -> is_tag (n_tag x) strTag = true ->
+    dec_duration str_ok null_ok dur_ok x =
+    if String.eqb (n_tag x) nullTag then DNull else if dur_ok (node_value x) then DOk (node_value x) else DErr.
+  Proof.
+    intros Hv Hp Ht. destruct (views_scalar x t Hv Hp Ht) as [Hx K]. destruct Hv as (D & A & T & _ & V & _).
+    rewrite (dec_duration_deref str_ok null_ok dur_ok x) by (now rewrite D). rewrite D.
+    rewrite (dec_duration_scalar str_ok null_ok H_str H_null dur_ok t Hx K), <- T, V. reflexivity.
   Qed.
 
   Lemma nth_checks_none (l : list (option (perror * (nat * nat)))) :
@@ -411,20 +502,19 @@ Section Rule.
 
   (** values of the label pairs as pint's YamlMap items see them *)
   Lemma ymap_items_texts k x :
-    plain_below x -> n_kind x = KMapping ->
+    lmap x ->
     map (fun ab : ynode * ynode => (y_value (fst ab), y_value (snd ab))) (ym_items (nym k x)) =
-    map (fun kv : node * node => (n_value (fst kv), n_value (snd kv))) (mapping_nodes x).
+    map (fun kv : node * node => (n_value (fst kv), node_value (snd kv))) (mapping_nodes x).
   Proof.
-    intros Hp K. unfold new_yaml_map. cbn [ym_items].
-    rewrite (plain_mapping_content x (plain_self x Hp) K). apply yaml_map_items_plain.
-    intros a b Hin. destruct (plain_pairs x a b Hp Hin) as [Ha Hb].
-    split; [exact (proj1 (plain_self a Ha))|exact (proj1 (plain_self b Hb))].
+    intros (Hx & K & Hl). unfold new_yaml_map. cbn [ym_items].
+    rewrite (plain_mapping_content x Hx K). apply yaml_map_items_plain.
+    intros a b Hin. destruct (Hl a b Hin) as [Ha _]. exact (proj1 (plain_self a Ha)).
   Qed.
 
   Lemma in_items_texts (items : list (ynode * ynode)) (lps : list (node * node)) :
     map (fun ab : ynode * ynode => (y_value (fst ab), y_value (snd ab))) items =
-    map (fun kv : node * node => (n_value (fst kv), n_value (snd kv))) lps ->
-    forall kv, In kv lps -> exists ab, In ab items /\ y_value (fst ab) = n_value (fst kv) /\ y_value (snd ab) = n_value (snd kv).
+    map (fun kv : node * node => (n_value (fst kv), node_value (snd kv))) lps ->
+    forall kv, In kv lps -> exists ab, In ab items /\ y_value (fst ab) = n_value (fst kv) /\ y_value (snd ab) = node_value (snd kv).
   Proof.
     revert lps. induction items as [|ab r IH]; intros [|kv0 lr] H kv Hin; cbn [map] in H; try discriminate; [destruct Hin|].
     inversion H as [[E1 E2 E3]]. destruct Hin as [<-|Hin].
@@ -434,42 +524,43 @@ Section Rule.
 
   (** label pairs validated by pint: Prometheus' label checks pass on the decoded map *)
   Lemma labels_valid k x :
-    plain_below x -> n_kind x = KMapping ->
+    lmap x ->
     bad_label lname_ok lvalue_ok (ym_items (nym k x)) = None ->
     forallb (label_ok lname_ok lvalue_ok) (pairs_text (mapping_nodes x)) = true.
   Proof.
-    intros Hp K Hb. apply forallb_forall. intros [a b] Hin. unfold pairs_text in Hin.
+    intros Hp Hb. apply forallb_forall. intros [a b] Hin. unfold pairs_text in Hin.
     apply in_map_iff in Hin. destruct Hin as ([kk vv] & E & Hin). inversion E; subst a b. clear E.
-    destruct (in_items_texts _ _ (ymap_items_texts k x Hp K) (kk, vv) Hin) as ([ya yb] & Hab & E1 & E2).
+    destruct (in_items_texts _ _ (ymap_items_texts k x Hp) (kk, vv) Hin) as ([ya yb] & Hab & E1 & E2).
     cbn [fst snd] in *. destruct (bad_label_none _ Hb ya yb Hab) as (L1 & L2 & L3).
     unfold label_ok. cbn [fst snd]. change (key_text (kk, vv)) with (n_value kk).
     rewrite <- E1, L1. apply String.eqb_neq in L2. rewrite L2. cbn [negb andb].
-    unfold str_val. destruct (String.eqb (n_tag vv) nullTag); [exact H_lvalue_empty|]. now rewrite <- E2.
+    unfold str_val. destruct (String.eqb (n_tag (deref vv)) nullTag); [exact H_lvalue_empty|].
+    now rewrite <- node_value_deref, <- E2.
   Qed.
 
   Lemma label_keys_nonempty k x :
-    plain_below x -> n_kind x = KMapping ->
+    lmap x ->
     (forall ya yb, In (ya, yb) (ym_items (nym k x)) -> lname_ok (y_value ya) = true) ->
     forall kk vv, In (kk, vv) (mapping_nodes x) -> n_value kk <> "".
   Proof.
-    intros Hp K H kk vv Hin E.
-    destruct (in_items_texts _ _ (ymap_items_texts k x Hp K) (kk, vv) Hin) as ([ya yb] & Hab & E1 & _).
+    intros Hp H kk vv Hin E.
+    destruct (in_items_texts _ _ (ymap_items_texts k x Hp) (kk, vv) Hin) as ([ya yb] & Hab & E1 & _).
     cbn [fst] in E1. specialize (H ya yb Hab). rewrite E1, E in H. congruence.
   Qed.
 
   (** template check: every decoded label/annotation value passes Prometheus' ParseTest *)
   Lemma templates_valid k x (checked : list (ynode * ynode)) :
-    plain_below x -> n_kind x = KMapping ->
+    lmap x ->
     (forall ab, In ab (ym_items (nym k x)) -> exists k', In (k', snd ab) checked) ->
     existsb (fun kv : ynode * ynode => negb (tmpl_pint (y_value (snd kv)))) checked = false ->
     forallb (fun kv : string * string => tmpl_prom (snd kv)) (pairs_text (mapping_nodes x)) = true.
   Proof.
-    intros Hp K Hsub Hex. apply forallb_forall. intros [a b] Hin. unfold pairs_text in Hin.
+    intros Hp Hsub Hex. apply forallb_forall. intros [a b] Hin. unfold pairs_text in Hin.
     apply in_map_iff in Hin. destruct Hin as ([kk vv] & E & Hin). inversion E; subst a b. clear E.
-    cbn [snd]. unfold str_val. destruct (String.eqb (n_tag vv) nullTag); [exact H_tmpl_empty|].
-    destruct (in_items_texts _ _ (ymap_items_texts k x Hp K) (kk, vv) Hin) as ([ya yb] & Hab & _ & E2).
+    cbn [snd]. unfold str_val. destruct (String.eqb (n_tag (deref vv)) nullTag); [exact H_tmpl_empty|].
+    destruct (in_items_texts _ _ (ymap_items_texts k x Hp) (kk, vv) Hin) as ([ya yb] & Hab & _ & E2).
     cbn [snd] in E2. destruct (Hsub (ya, yb) Hab) as (k' & Hk'). cbn [snd] in Hk'.
-    apply H_tmpl. rewrite <- E2.
+    apply H_tmpl. rewrite <- node_value_deref, <- E2.
     destruct (tmpl_pint (y_value yb)) eqn:T; [reflexivity|].
     assert (X : existsb (fun kv : ynode * ynode => negb (tmpl_pint (y_value (snd kv)))) checked = true).
     { apply existsb_exists. exists (k', yb). split; [exact Hk'|]. cbn [snd]. now rewrite T. }
@@ -480,22 +571,73 @@ Section Rule.
   Proof. reflexivity. Qed.
 
   (** Step 2: the Prometheus loader decodes the accepted rule mapping; field by field. *)
+  Lemma in_ups rn k x : In (k, x) (mapping_nodes rn) -> In (k, unp x) (ups rn).
+  Proof. intros H. unfold ups. apply in_map_iff. exists (k, x). split; [reflexivity|exact H]. Qed.
+
   Lemma rule_decodes rn :
-    plain_below rn -> r_error (PRS lines rn) = None ->
-    let ps := mapping_nodes rn in
-    dec_fields str_ok null_ok (Some rule_fields) rn = DOk (map (fun kv => (key_text kv, snd kv)) ps).
+    rule_guard rn -> r_error (PRS lines rn) = None ->
+    dec_fields str_ok null_ok (Some rule_fields) rn = DOk (map (fun kv => (key_text kv, snd kv)) (mapping_nodes rn)).
   Proof.
-    intros Hp Herr ps. destruct (rule_accept_facts rn Hp Herr) as (s & K & Hc & Hknown & Hnd & _).
+    intros Hp Herr. destruct (rule_accept_facts rn Hp Herr) as (s & K & Hc & Hknown & Hnd & _).
+    rewrite ups_keys in Hnd.
+    assert (Hknown' : forall k x, In (k, x) (mapping_nodes rn) -> field_of (n_value k) <> FUnknown).
+    { intros k x Hin. exact (Hknown (k, unp x) (in_ups rn k x Hin)). }
     apply dec_fields_plain; auto.
-    - exact (plain_self rn Hp).
-    - split; [|exact Hnd]. intros k x Hin. destruct (plain_pairs rn k x Hp Hin) as [Hk _].
+    - exact (proj1 Hp).
+    - split; [|exact Hnd]. intros k x Hin. destruct (proj2 Hp k x Hin) as [Hk _].
       pose proof (plain_self k Hk) as Hkn. split; [exact Hkn|]. split.
-      + apply plain_nonempty_scalar; auto. intro E. apply (Hknown (k, x) Hin). change (key_text (k, x)) with (n_value k). now rewrite E.
-      + exact (plain_mapping_keys rn k x (plain_self rn Hp) K Hin).
-    - intros fields E s0 Hs. inversion E; subst fields. apply in_map_iff in Hs. destruct Hs as (kv & <- & Hin).
-      rewrite (field_of_name (key_text kv) _ eq_refl (Hknown kv Hin)). apply field_name_in. exact (Hknown kv Hin).
+      + apply plain_nonempty_scalar; auto. intro E. apply (Hknown' k x Hin). now rewrite E.
+      + exact (plain_mapping_keys rn k x (proj1 Hp) K Hin).
+    - intros fields E s0 Hs. inversion E; subst fields. apply in_map_iff in Hs. destruct Hs as ([k x] & <- & Hin).
+      change (key_text (k, x)) with (n_value k).
+      rewrite (field_of_name (n_value k) _ eq_refl (Hknown' k x Hin)). apply field_name_in. exact (Hknown' k x Hin).
   Qed.
 
+  (** what dec_rule does with the assignment list; it looks at every value through [deref], so it cannot tell a raw
+      alias node from the resolved copy pint works with *)
+  Definition rule_tail (a : list (string * node)) : dres prule :=
+    if existsb (rule_field_err str_ok null_ok dur_ok) a then DErr
+    else DOk {| pr_record := str_field str_ok null_ok "record" a; pr_alert := str_field str_ok null_ok "alert" a;
+                pr_expr := str_field str_ok null_ok "expr" a;
+                pr_for := dur_field str_ok null_ok dur_ok "for" a; pr_keep := dur_field str_ok null_ok dur_ok "keep_firing_for" a;
+                pr_labels := map_field str_ok null_ok "labels" a; pr_annotations := map_field str_ok null_ok "annotations" a |}.
+
+  Lemma dec_rule_tail n :
+    dec_rule str_ok null_ok dur_ok n =
+    match dec_fields str_ok null_ok (Some rule_fields) n with DErr => DErr | DNull => DNull | DOk a => rule_tail a end.
+  Proof. reflexivity. Qed.
+
+  Lemma dec_string_unp x : dec_string str_ok null_ok (unp x) = dec_string str_ok null_ok x.
+  Proof. unfold dec_string. now rewrite deref_unp. Qed.
+  Lemma dec_duration_unp x : dec_duration str_ok null_ok dur_ok (unp x) = dec_duration str_ok null_ok dur_ok x.
+  Proof. unfold dec_duration. now rewrite deref_unp, dec_string_unp. Qed.
+  Lemma dec_strmap_unp x : dec_strmap str_ok null_ok (unp x) = dec_strmap str_ok null_ok x.
+  Proof. unfold dec_strmap, dec_fields. now rewrite deref_unp. Qed.
+
+  Definition unp_assign (a : list (string * node)) : list (string * node) := map (fun kv => (fst kv, unp (snd kv))) a.
+
+  Lemma look_unp name a : look name (unp_assign a) = option_map unp (look name a).
+  Proof.
+    unfold look, unp_assign. induction a as [|[k v] r IH]; [reflexivity|]. cbn [map assoc fst snd].
+    destruct (String.eqb name k); [reflexivity|exact IH].
+  Qed.
+
+  Lemma rule_tail_unp a : rule_tail (unp_assign a) = rule_tail a.
+  Proof.
+    unfold rule_tail.
+    assert (E : existsb (rule_field_err str_ok null_ok dur_ok) (unp_assign a) = existsb (rule_field_err str_ok null_ok dur_ok) a).
+    { unfold unp_assign. induction a as [|[k v] r IH]; [reflexivity|]. cbn [map existsb fst snd]. rewrite IH. f_equal.
+      unfold rule_field_err. now rewrite dec_string_unp, dec_duration_unp, dec_strmap_unp. }
+    rewrite E. destruct (existsb _ a); [reflexivity|]. f_equal.
+    unfold str_field, dur_field, map_field. rewrite !look_unp.
+    destruct (look "record" a), (look "alert" a), (look "expr" a), (look "for" a), (look "keep_firing_for" a),
+             (look "labels" a), (look "annotations" a); cbn [option_map];
+      rewrite ?dec_string_unp, ?dec_duration_unp, ?dec_strmap_unp; reflexivity.
+  Qed.
+
+  Lemma ups_assign rn :
+    map (fun kv => (key_text kv, snd kv)) (ups rn) = unp_assign (map (fun kv => (key_text kv, snd kv)) (mapping_nodes rn)).
+  Proof. unfold ups, unp_assign. rewrite !map_map. reflexivity. Qed.
 
   Lemma nyn_value x c : y_value (nyn x c) = node_value x.
   Proof. unfold new_yaml_node. destruct (plines lines x c). reflexivity. Qed.
@@ -523,7 +665,7 @@ Section Rule.
   Qed.
 
   Lemma strmap_noerr fld x off ln :
-    plain_below x -> is_tag (n_tag x) mapTag = true ->
+    tgt_ok x -> is_tag (n_tag x) mapTag = true ->
     validate_string_map fld (mapping_nodes x) off ln = None ->
     (forall k v, In (k, v) (mapping_nodes x) -> n_value k <> "") ->
     derr (dec_strmap str_ok null_ok x) = false.
@@ -532,10 +674,10 @@ Section Rule.
   Qed.
 
   Lemma items_keys k x :
-    plain_below x -> n_kind x = KMapping ->
+    lmap x ->
     map (fun ab : ynode * ynode => y_value (fst ab)) (ym_items (nym k x)) = map key_text (mapping_nodes x).
   Proof.
-    intros Hp K. pose proof (ymap_items_texts k x Hp K) as H.
+    intros Hp. pose proof (ymap_items_texts k x Hp) as H.
     apply (f_equal (map fst)) in H. rewrite !map_map in H. exact H.
   Qed.
 
@@ -546,8 +688,8 @@ Section Rule.
 
 
   (** a validated `labels:` value: decodes, passes the label checks and the template check *)
-  Lemma labels_facts kl xl ln (checked : list (ynode * ynode)) :
-    plain_below xl -> is_tag (n_tag xl) mapTag = true ->
+  Lemma labels_facts_t kl xl ln (checked : list (ynode * ynode)) :
+    tgt_ok xl -> is_tag (n_tag xl) mapTag = true ->
     validate_string_map "labels" (mapping_nodes xl) 0 ln = None ->
     bad_label lname_ok lvalue_ok (ym_items (nym kl xl)) = None ->
     derr (dec_strmap str_ok null_ok xl) = false /\
@@ -557,26 +699,26 @@ Section Rule.
      forallb (fun kv : string * string => tmpl_prom (snd kv)) (dval (dec_strmap str_ok null_ok xl) []) = true) /\
     NoDup (map (fun ab : ynode * ynode => y_value (fst ab)) (ym_items (nym kl xl))).
   Proof.
-    intros Hp Ht Hv Hb.
+    intros Hp Ht Hv Hb. pose proof (tgt_plain xl Hp) as Hx.
     destruct (is_tag_true _ _ Ht) as [T|T].
     - (* null *)
-      assert (K : n_kind xl = KScalar) by (apply plain_str_scalar; [exact (plain_self xl Hp)|auto]).
-      rewrite (dec_strmap_null str_ok null_ok H_null xl (plain_self xl Hp) K T). cbn [derr dval forallb].
+      assert (K : n_kind xl = KScalar) by (apply plain_str_scalar; [exact Hx|auto]).
+      rewrite (dec_strmap_null str_ok null_ok H_null xl Hx K T). cbn [derr dval forallb].
       assert (C : n_content xl = []).
-      { destruct (plain_self xl Hp) as [_ H]. rewrite K in H. tauto. }
+      { destruct Hx as [_ H]. rewrite K in H. tauto. }
       repeat split; auto. unfold new_yaml_map. cbn [ym_items]. rewrite C. constructor.
-    - pose proof (plain_map_tag xl (plain_self xl Hp) T) as K.
+    - pose proof (plain_map_tag xl Hx T) as K. pose proof (tgt_lmap xl Hp K) as Hl.
       assert (Hne : forall k v, In (k, v) (mapping_nodes xl) -> n_value k <> "").
-      { apply (label_keys_nonempty kl xl Hp K). intros ya yb Hab. exact (proj1 (bad_label_none _ Hb ya yb Hab)). }
+      { apply (label_keys_nonempty kl xl Hl). intros ya yb Hab. exact (proj1 (bad_label_none _ Hb ya yb Hab)). }
       destruct (strmap_of_validated "labels" xl 0 ln Hp Ht Hv Hne) as [[T' _]|[_ E]].
       { rewrite T in T'. discriminate. }
-      rewrite E. cbn [derr dval]. split; [reflexivity|]. split; [exact (labels_valid kl xl Hp K Hb)|]. split.
-      + intros Hsub Hex. exact (templates_valid kl xl checked Hp K Hsub Hex).
-      + rewrite (items_keys kl xl Hp K). exact (proj2 (validate_string_map_none _ _ _ _ Hv)).
+      rewrite E. cbn [derr dval]. split; [reflexivity|]. split; [exact (labels_valid kl xl Hl Hb)|]. split.
+      + intros Hsub Hex. exact (templates_valid kl xl checked Hl Hsub Hex).
+      + rewrite (items_keys kl xl Hl). exact (proj2 (validate_string_map_none _ _ _ _ Hv)).
   Qed.
 
-  Lemma annotations_facts kn xn ln :
-    plain_below xn -> is_tag (n_tag xn) mapTag = true ->
+  Lemma annotations_facts_t kn xn ln :
+    tgt_ok xn -> is_tag (n_tag xn) mapTag = true ->
     validate_string_map "annotations" (mapping_nodes xn) 0 ln = None ->
     bad_annotation lname_ok (ym_items (nym kn xn)) = None ->
     derr (dec_strmap str_ok null_ok xn) = false /\
@@ -584,26 +726,65 @@ Section Rule.
     (existsb (fun kv : ynode * ynode => negb (tmpl_pint (y_value (snd kv)))) (ym_items (nym kn xn)) = false ->
      forallb (fun kv : string * string => tmpl_prom (snd kv)) (dval (dec_strmap str_ok null_ok xn) []) = true).
   Proof.
-    intros Hp Ht Hv Hb.
+    intros Hp Ht Hv Hb. pose proof (tgt_plain xn Hp) as Hx.
     destruct (is_tag_true _ _ Ht) as [T|T].
-    - assert (K : n_kind xn = KScalar) by (apply plain_str_scalar; [exact (plain_self xn Hp)|auto]).
-      rewrite (dec_strmap_null str_ok null_ok H_null xn (plain_self xn Hp) K T). cbn [derr dval forallb]. auto.
-    - pose proof (plain_map_tag xn (plain_self xn Hp) T) as K.
+    - assert (K : n_kind xn = KScalar) by (apply plain_str_scalar; [exact Hx|auto]).
+      rewrite (dec_strmap_null str_ok null_ok H_null xn Hx K T). cbn [derr dval forallb]. auto.
+    - pose proof (plain_map_tag xn Hx T) as K. pose proof (tgt_lmap xn Hp K) as Hl.
       assert (Hne : forall k v, In (k, v) (mapping_nodes xn) -> n_value k <> "").
-      { apply (label_keys_nonempty kn xn Hp K). intros ya yb Hab. exact (bad_annotation_none _ Hb ya yb Hab). }
+      { apply (label_keys_nonempty kn xn Hl). intros ya yb Hab. exact (bad_annotation_none _ Hb ya yb Hab). }
       destruct (strmap_of_validated "annotations" xn 0 ln Hp Ht Hv Hne) as [[T' _]|[_ E]].
       { rewrite T in T'. discriminate. }
       rewrite E. cbn [derr dval]. split; [reflexivity|]. split.
       + apply forallb_forall. intros [a0 b0] Hin. unfold pairs_text in Hin. apply in_map_iff in Hin.
         destruct Hin as ([kk vv] & E0 & Hin). inversion E0; subst a0 b0. cbn [fst].
-        destruct (in_items_texts _ _ (ymap_items_texts kn xn Hp K) (kk, vv) Hin) as ([ya yb] & Hab & E1 & _).
+        destruct (in_items_texts _ _ (ymap_items_texts kn xn Hl) (kk, vv) Hin) as ([ya yb] & Hab & E1 & _).
         cbn [fst] in E1. change (key_text (kk, vv)) with (n_value kk). rewrite <- E1. exact (bad_annotation_none _ Hb ya yb Hab).
-      + intros Hex. apply (templates_valid kn xn (ym_items (nym kn xn)) Hp K); [|exact Hex].
+      + intros Hex. apply (templates_valid kn xn (ym_items (nym kn xn)) Hl); [|exact Hex].
         intros ab Hab. exists (fst ab). destruct ab. exact Hab.
   Qed.
 
+  (** the same for pint's node [x] that stands for [t] (an alias resolved by unpackNodes carries the content of its target) *)
+  Lemma views_map_eqs k x t :
+    views x t ->
+    mapping_nodes x = mapping_nodes t /\ ym_items (nym k x) = ym_items (nym k t) /\
+    dec_strmap str_ok null_ok x = dec_strmap str_ok null_ok t.
+  Proof.
+    intros (D & A & T & C & _). split; [unfold mapping_nodes; now rewrite C|]. split.
+    - unfold new_yaml_map. cbn [ym_items]. now rewrite C.
+    - rewrite (dec_strmap_deref str_ok null_ok x) by (now rewrite D). now rewrite D.
+  Qed.
+
+  Lemma labels_facts kl xl t ln (checked : list (ynode * ynode)) :
+    views xl t -> tgt_ok t -> is_tag (n_tag xl) mapTag = true ->
+    validate_string_map "labels" (mapping_nodes xl) 0 ln = None ->
+    bad_label lname_ok lvalue_ok (ym_items (nym kl xl)) = None ->
+    derr (dec_strmap str_ok null_ok xl) = false /\
+    forallb (label_ok lname_ok lvalue_ok) (dval (dec_strmap str_ok null_ok xl) []) = true /\
+    ((forall ab, In ab (ym_items (nym kl xl)) -> exists k', In (k', snd ab) checked) ->
+     existsb (fun kv : ynode * ynode => negb (tmpl_pint (y_value (snd kv)))) checked = false ->
+     forallb (fun kv : string * string => tmpl_prom (snd kv)) (dval (dec_strmap str_ok null_ok xl) []) = true) /\
+    NoDup (map (fun ab : ynode * ynode => y_value (fst ab)) (ym_items (nym kl xl))).
+  Proof.
+    intros Hv Hp. destruct (views_map_eqs kl xl t Hv) as (E1 & E2 & E3). destruct Hv as (_ & _ & T & _).
+    rewrite E1, E2, E3, T. apply labels_facts_t. exact Hp.
+  Qed.
+
+  Lemma annotations_facts kn xn t ln :
+    views xn t -> tgt_ok t -> is_tag (n_tag xn) mapTag = true ->
+    validate_string_map "annotations" (mapping_nodes xn) 0 ln = None ->
+    bad_annotation lname_ok (ym_items (nym kn xn)) = None ->
+    derr (dec_strmap str_ok null_ok xn) = false /\
+    forallb (fun kv : string * string => lname_ok (fst kv)) (dval (dec_strmap str_ok null_ok xn) []) = true /\
+    (existsb (fun kv : ynode * ynode => negb (tmpl_pint (y_value (snd kv)))) (ym_items (nym kn xn)) = false ->
+     forallb (fun kv : string * string => tmpl_prom (snd kv)) (dval (dec_strmap str_ok null_ok xn) []) = true).
+  Proof.
+    intros Hv Hp. destruct (views_map_eqs kn xn t Hv) as (E1 & E2 & E3). destruct Hv as (_ & _ & T & _).
+    rewrite E1, E2, E3, T. apply annotations_facts_t. exact Hp.
+  Qed.
+
   Theorem rule_sound rn glabels :
-    plain_below rn ->
+    rule_guard rn ->
     r_error (PRS lines rn) = None ->
     rule_blocks expr_ok dur_ok tmpl_pint glabels (PRS lines rn) = false ->
     exists pr, dec_rule str_ok null_ok dur_ok rn = DOk pr /\
@@ -612,7 +793,7 @@ Section Rule.
     intros Hp Herr Hblk.
     destruct (rule_accept_facts rn Hp Herr) as (s & K & Hc & Hknown & Hnd & Hsl & Hall & Hfin).
     pose proof (rule_decodes rn Hp Herr) as Hdec. cbv zeta in Hdec.
-    set (ps := mapping_nodes rn) in *.
+    set (ps := ups rn) in *.
     set (a := map (fun kv => (key_text kv, snd kv)) ps) in *.
     (* slots as lookups *)
     pose proof (slot_scalar ps s FRecord I (Hsl FRecord ltac:(discriminate))) as Sr. cbn [get_sc] in Sr.
@@ -639,7 +820,7 @@ Section Rule.
     pose proof (Lk FExpr ltac:(discriminate)) as Le. pose proof (Lk FFor ltac:(discriminate)) as Lf.
     pose proof (Lk FKeep ltac:(discriminate)) as Lkp. pose proof (Lk FLabels ltac:(discriminate)) as Ll.
     pose proof (Lk FAnn ltac:(discriminate)) as Ln. cbn [field_name] in Lr, La, Le, Lf, Lkp, Ll, Ln. clear Lk.
-    unfold dec_rule. rewrite Hdec.
+    rewrite dec_rule_tail, Hdec, <- rule_tail_unp, <- ups_assign. fold ps. fold a. unfold rule_tail.
     (* tag facts *)
     assert (T5 : forall k n, In (k, Some n) [("record", onode (s_record s)); ("alert", onode (s_alert s)); ("expr", onode (s_expr s));
                                              ("for", onode (s_for s)); ("keep_firing_for", onode (s_keep s))] ->
@@ -659,8 +840,15 @@ Section Rule.
     { intros k x Hin. apply (pair_is_found ps s); auto.
       - exact (Hknown (k, x) Hin).
       - apply Hsl. exact (Hknown (k, x) Hin). }
-    assert (Hpl : forall f k x, find_field f ps = Some (k, x) -> plain_below x /\ In (k, x) ps).
-    { intros f k x E. destruct (find_field_In f ps k x E) as [Hin _]. split; [|exact Hin]. exact (proj2 (plain_pairs rn k x Hp Hin)). }
+    assert (Hpl : forall f k x, find_field f ps = Some (k, x) -> (exists t, views x t /\ tgt_ok t) /\ In (k, x) ps).
+    { intros f k x E. destruct (find_field_In f ps k x E) as [Hin _]. split; [|exact Hin].
+      unfold ps, ups in Hin. apply in_map_iff in Hin. destruct Hin as ([k0 x0] & E0 & Hin0). inversion E0; subst k x.
+      destruct (proj2 Hp k0 x0 Hin0) as [_ (t & Hs & Ht)]. exists t. split; [exact (views_unp x0 t Hs)|exact Ht]. }
+    assert (Hnn : forall x t, views x t -> (n_tag x = nullTag -> n_value x = "") -> node_value x <> "" -> n_tag x <> nullTag).
+    { intros x t (_ & _ & _ & _ & _ & V1 & V2) Hn Hv T. specialize (Hn T).
+      destruct (n_alias x) as [tt|] eqn:Ax.
+      - apply V2; [discriminate|exact Hn].
+      - apply Hv. unfold node_value. now rewrite Ax. }
     destruct (find_field FRecord ps) as [[kr xr]|] eqn:Fr.
     - (* ---- recording rule ---- *)
       destruct (find_field FAlert ps) as [[ka xa]|] eqn:Fa; [discriminate C0|].
@@ -670,17 +858,15 @@ Section Rule.
       destruct (find_field FExpr ps) as [[ke xe]|] eqn:Fe; [|discriminate Hfin].
       inversion Hfin as [Hr]. clear Hfin. rewrite <- Hr in Hblk. cbn [rule_blocks r_body] in Hblk.
       apply negb_false_iff in Hblk. rewrite nyn_value in Hblk.
-      destruct (Hpl _ _ _ Fr) as [Hpr Hinr]. destruct (Hpl _ _ _ Fe) as [Hpe Hine].
+      destruct (Hpl _ _ _ Fr) as [(tr & Hvr & Hpr) Hinr]. destruct (Hpl _ _ _ Fe) as [(te & Hve & Hpe) Hine].
       pose proof (T5 "record" xr (or_introl eq_refl)) as Tr.
       pose proof (T5 "expr" xe (or_intror (or_intror (or_introl eq_refl)))) as Te.
       destruct (ensure_required_none _ _ _ _ _ (ensure_none _ _ _ _ _ C9) eq_refl) as (Vr & m & e & Ee & Ve).
       inversion Ee; subst m e. rewrite nyn_value in Vr, Ve.
-      rewrite (node_value_plain xr (plain_self _ Hpr)) in Vr.
-      rewrite (node_value_plain xe (plain_self _ Hpe)) in Ve, Hblk.
-      assert (Nr : n_tag xr <> nullTag) by (intro X; exact (Vr (TN "record" xr (or_introl eq_refl) X))).
-      assert (Ne : n_tag xe <> nullTag) by (intro X; exact (Ve (TN "expr" xe (or_intror (or_intror (or_introl eq_refl))) X))).
-      pose proof (dec_str_value xr Hpr Tr Nr) as Dr.
-      pose proof (dec_str_value xe Hpe Te Ne) as De.
+      assert (Nr : n_tag xr <> nullTag) by (exact (Hnn xr tr Hvr (TN "record" xr (or_introl eq_refl)) Vr)).
+      assert (Ne : n_tag xe <> nullTag) by (exact (Hnn xe te Hve (TN "expr" xe (or_intror (or_intror (or_introl eq_refl)))) Ve)).
+      pose proof (dec_str_value xr tr Hvr Hpr Tr Nr) as Dr.
+      pose proof (dec_str_value xe te Hve Hpe Te Ne) as De.
       cbn [isSome orb] in C14.
       (* labels *)
       assert (HL : match find_field FLabels ps with
@@ -688,10 +874,10 @@ Section Rule.
                                       forallb (label_ok lname_ok lvalue_ok) (dval (dec_strmap str_ok null_ok xl) []) = true
                    | None => True end).
       { destruct (find_field FLabels ps) as [[kl xl]|] eqn:Fl; [|exact I].
-        destruct (Hpl _ _ _ Fl) as [Hpl' _].
+        destruct (Hpl _ _ _ Fl) as [(tl & Hvl & Hpl') _].
         pose proof (T6 "labels" xl (or_introl eq_refl)) as Tl.
         destruct (bad_label lname_ok lvalue_ok (ym_items (nym kl xl))) eqn:Bl; [discriminate C14|].
-        destruct (labels_facts kl xl _ [] Hpl' Tl C7 Bl) as (A & B & _). split; assumption. }
+        destruct (labels_facts kl xl tl _ [] Hvl Hpl' Tl C7 Bl) as (A & B & _). split; assumption. }
       assert (Herrs : existsb (rule_field_err str_ok null_ok dur_ok) a = false).
       { apply no_field_err; [exact Hknown|]. intros k x Hin. pose proof (Hfound k x Hin) as Hf.
         destruct (field_of (n_value k)) eqn:Fk; cbn [field_value_ok]; try exact I.
@@ -705,13 +891,13 @@ Section Rule.
       rewrite Herrs. eexists. split; [reflexivity|].
       unfold rule_valid, str_field, dur_field, map_field. cbn [pr_record pr_alert pr_expr pr_for pr_keep pr_labels pr_annotations].
       rewrite Lr, La, Le, Lf, Lkp, Ll, Ln. cbn [option_map snd]. rewrite Dr, De. cbn [dval].
-      assert (Er : is_empty (n_value xr) = false) by (unfold is_empty; now apply String.eqb_neq).
-      assert (Ee' : is_empty (n_value xe) = false) by (unfold is_empty; now apply String.eqb_neq).
+      assert (Er : is_empty (node_value xr) = false) by (unfold is_empty; now apply String.eqb_neq).
+      assert (Ee' : is_empty (node_value xe) = false) by (unfold is_empty; now apply String.eqb_neq).
       rewrite Er, Ee'. cbn [is_empty String.eqb negb andb orb nonzero_dur]. rewrite Hblk.
-      rewrite nyn_value, (node_value_plain xr (plain_self _ Hpr)) in C12, C13.
-      destruct (metric_ok (n_value xr)) eqn:Mk; [|discriminate C12]. cbn [negb] in C13.
+      rewrite nyn_value in C12, C13.
+      destruct (metric_ok (node_value xr)) eqn:Mk; [|discriminate C12]. cbn [negb] in C13.
       rewrite contains_brace_same.
-      destruct (Parser.contains_brace (n_value xr)) eqn:Cb; [discriminate C13|]. cbn [negb andb].
+      destruct (Parser.contains_brace (node_value xr)) eqn:Cb; [discriminate C13|]. cbn [negb andb].
       destruct (find_field FLabels ps) as [[kl xl]|]; cbn [option_map snd]; [|reflexivity].
       destruct HL as [_ HL]. rewrite HL. reflexivity.
     - (* ---- alerting rule ---- *)
@@ -723,36 +909,34 @@ Section Rule.
       apply orb_false_iff in Hblk. destruct Hblk as [Hex Hbf]. apply negb_false_iff in Hex.
       rewrite Hex in Htm. cbn [andb] in Htm. apply orb_false_iff in Htm. destruct Htm as [Htl Hta].
       rewrite nyn_value in Hex.
-      destruct (Hpl _ _ _ Fa) as [Hpa Hina]. destruct (Hpl _ _ _ Fe) as [Hpe Hine].
+      destruct (Hpl _ _ _ Fa) as [(ta & Hva & Hpa) Hina]. destruct (Hpl _ _ _ Fe) as [(te & Hve & Hpe) Hine].
       pose proof (T5 "alert" xa (or_intror (or_introl eq_refl))) as Ta.
       pose proof (T5 "expr" xe (or_intror (or_intror (or_introl eq_refl)))) as Te.
       destruct (ensure_required_none _ _ _ _ _ (ensure_none _ _ _ _ _ C10) eq_refl) as (Va & m & e & Ee & Ve).
       inversion Ee; subst m e. rewrite nyn_value in Va, Ve.
-      rewrite (node_value_plain xa (plain_self _ Hpa)) in Va.
-      rewrite (node_value_plain xe (plain_self _ Hpe)) in Ve, Hex.
-      assert (Na : n_tag xa <> nullTag) by (intro X; exact (Va (TN "alert" xa (or_intror (or_introl eq_refl)) X))).
-      assert (Ne : n_tag xe <> nullTag) by (intro X; exact (Ve (TN "expr" xe (or_intror (or_intror (or_introl eq_refl))) X))).
-      pose proof (dec_str_value xa Hpa Ta Na) as Da.
-      pose proof (dec_str_value xe Hpe Te Ne) as De.
+      assert (Na : n_tag xa <> nullTag) by (exact (Hnn xa ta Hva (TN "alert" xa (or_intror (or_introl eq_refl))) Va)).
+      assert (Ne : n_tag xe <> nullTag) by (exact (Hnn xe te Hve (TN "expr" xe (or_intror (or_intror (or_introl eq_refl)))) Ve)).
+      pose proof (dec_str_value xa ta Hva Hpa Ta Na) as Da.
+      pose proof (dec_str_value xe te Hve Hpe Te Ne) as De.
       cbn [isSome orb] in C14.
       (* for / keep_firing_for *)
       assert (HF : match find_field FFor ps with
                    | Some (kf, xf) => derr (dec_duration str_ok null_ok dur_ok xf) = false
                    | None => True end).
       { destruct (find_field FFor ps) as [[kf xf]|] eqn:Ff; [|exact I].
-        destruct (Hpl _ _ _ Ff) as [Hpf _].
+        destruct (Hpl _ _ _ Ff) as [(tf & Hvf & Hpf) _].
         pose proof (T5 "for" xf (or_intror (or_intror (or_intror (or_introl eq_refl))))) as Tf.
-        rewrite (dec_dur_value xf Hpf Tf). destruct (String.eqb (n_tag xf) nullTag); [reflexivity|].
-        cbn [oval option_map snd bad_dur] in Hbf. rewrite nyn_value, (node_value_plain xf (plain_self _ Hpf)) in Hbf.
+        rewrite (dec_dur_value xf tf Hvf Hpf Tf). destruct (String.eqb (n_tag xf) nullTag); [reflexivity|].
+        cbn [oval option_map snd bad_dur] in Hbf. rewrite nyn_value in Hbf.
         apply negb_false_iff in Hbf. now rewrite Hbf. }
       assert (HK : match find_field FKeep ps with
                    | Some (kk, xk) => derr (dec_duration str_ok null_ok dur_ok xk) = false
                    | None => True end).
       { destruct (find_field FKeep ps) as [[kk xk]|] eqn:Fkp; [|exact I].
-        destruct (Hpl _ _ _ Fkp) as [Hpk _].
+        destruct (Hpl _ _ _ Fkp) as [(tk & Hvk & Hpk) _].
         pose proof (T5 "keep_firing_for" xk (or_intror (or_intror (or_intror (or_intror (or_introl eq_refl)))))) as Tk.
-        rewrite (dec_dur_value xk Hpk Tk). destruct (String.eqb (n_tag xk) nullTag); [reflexivity|].
-        cbn [oval option_map snd bad_dur] in Hbk. rewrite nyn_value, (node_value_plain xk (plain_self _ Hpk)) in Hbk.
+        rewrite (dec_dur_value xk tk Hvk Hpk Tk). destruct (String.eqb (n_tag xk) nullTag); [reflexivity|].
+        cbn [oval option_map snd bad_dur] in Hbk. rewrite nyn_value in Hbk.
         apply negb_false_iff in Hbk. now rewrite Hbk. }
       assert (HL : match find_field FLabels ps with
                    | Some (kl, xl) => derr (dec_strmap str_ok null_ok xl) = false /\
@@ -760,11 +944,11 @@ Section Rule.
                                       forallb (fun kv : string * string => tmpl_prom (snd kv)) (dval (dec_strmap str_ok null_ok xl) []) = true
                    | None => True end).
       { destruct (find_field FLabels ps) as [[kl xl]|] eqn:Fl; [|exact I].
-        destruct (Hpl _ _ _ Fl) as [Hpl' _].
+        destruct (Hpl _ _ _ Fl) as [(tl & Hvl & Hpl') _].
         pose proof (T6 "labels" xl (or_introl eq_refl)) as Tl.
         destruct (bad_label lname_ok lvalue_ok (ym_items (nym kl xl))) eqn:Bl; [discriminate C14|].
         cbn [oval option_map snd] in Htl.
-        destruct (labels_facts kl xl _ (entry_labels glabels (Some (nym kl xl))) Hpl' Tl C7 Bl) as (A & B & C & D).
+        destruct (labels_facts kl xl tl _ (entry_labels glabels (Some (nym kl xl))) Hvl Hpl' Tl C7 Bl) as (A & B & C & D).
         split; [exact A|]. split; [exact B|]. apply C; [|exact Htl].
         apply entry_labels_keeps. exact D. }
       assert (HN : match find_field FAnn ps with
@@ -773,11 +957,11 @@ Section Rule.
                                       forallb (fun kv : string * string => tmpl_prom (snd kv)) (dval (dec_strmap str_ok null_ok xn) []) = true
                    | None => True end).
       { destruct (find_field FAnn ps) as [[kn xn]|] eqn:Fn; [|exact I].
-        destruct (Hpl _ _ _ Fn) as [Hpn _].
+        destruct (Hpl _ _ _ Fn) as [(tn & Hvn & Hpn) _].
         pose proof (T6 "annotations" xn (or_intror (or_introl eq_refl))) as Tn.
         destruct (bad_annotation lname_ok (ym_items (nym kn xn))) eqn:Bn; [discriminate C15|].
         cbn [oval option_map snd] in Hta.
-        destruct (annotations_facts kn xn _ Hpn Tn C8 Bn) as (A & B & C).
+        destruct (annotations_facts kn xn tn _ Hvn Hpn Tn C8 Bn) as (A & B & C).
         split; [exact A|]. split; [exact B|]. exact (C Hta). }
       assert (Herrs : existsb (rule_field_err str_ok null_ok dur_ok) a = false).
       { apply no_field_err; [exact Hknown|]. intros k x Hin. pose proof (Hfound k x Hin) as Hf.
@@ -792,8 +976,8 @@ Section Rule.
       rewrite Herrs. eexists. split; [reflexivity|].
       unfold rule_valid, str_field, dur_field, map_field. cbn [pr_record pr_alert pr_expr pr_for pr_keep pr_labels pr_annotations].
       rewrite Lr, La, Le, Lf, Lkp, Ll, Ln. cbn [option_map snd]. rewrite Da, De. cbn [dval].
-      assert (Ea : is_empty (n_value xa) = false) by (unfold is_empty; now apply String.eqb_neq).
-      assert (Ee' : is_empty (n_value xe) = false) by (unfold is_empty; now apply String.eqb_neq).
+      assert (Ea : is_empty (node_value xa) = false) by (unfold is_empty; now apply String.eqb_neq).
+      assert (Ee' : is_empty (node_value xe) = false) by (unfold is_empty; now apply String.eqb_neq).
       rewrite Ea, Ee'. cbn [is_empty String.eqb negb andb orb]. rewrite Hex. cbn [andb].
       destruct (find_field FLabels ps) as [[kl xl]|]; destruct (find_field FAnn ps) as [[kn xn]|]; cbn [option_map snd forallb andb].
       + destruct HL as (_ & L1 & L2). destruct HN as (_ & N1 & N2). rewrite L1, L2, N1, N2. reflexivity.
